@@ -21,9 +21,67 @@ import (
 
 // ---------------------------------------------------------------- requests and callers on the wire
 
+type fact struct {
+	path []string
+	val  string
+}
+
 type request struct {
 	path    string
 	headers [][2]string // lower-case name, value (includes :method)
+	meta    []fact      // string values in the dynamic metadata of envoy.filters.http.jwt_authn
+}
+
+func (r *request) has(path []string, val string) bool {
+	for _, f := range r.meta {
+		if f.val == val && len(f.path) == len(path) {
+			eq := true
+			for i := range path {
+				if path[i] != f.path[i] {
+					eq = false
+				}
+			}
+			if eq {
+				return true
+			}
+		}
+	}
+	return false
+}
+
+// metadata matcher: filter namespace, key path, exact string value
+func metaParts(m *envoy_matcher_v3.MetadataMatcher) (path []string, val string, ok bool) {
+	if m.GetFilter() != "envoy.filters.http.jwt_authn" || m.GetInvert() {
+		return nil, "", false
+	}
+	for _, seg := range m.GetPath() {
+		k, isKey := seg.GetSegment().(*envoy_matcher_v3.MetadataMatcher_PathSegment_Key)
+		if !isKey {
+			return nil, "", false
+		}
+		path = append(path, k.Key)
+	}
+	sm, isStr := m.GetValue().GetMatchPattern().(*envoy_matcher_v3.ValueMatcher_StringMatch)
+	if !isStr {
+		return nil, "", false
+	}
+	ex, isExact := sm.StringMatch.GetMatchPattern().(*envoy_matcher_v3.StringMatcher_Exact)
+	if !isExact || sm.StringMatch.GetIgnoreCase() {
+		return nil, "", false
+	}
+	return path, ex.Exact, true
+}
+
+func sMeta(m *envoy_matcher_v3.MetadataMatcher) string {
+	path, val, ok := metaParts(m)
+	if !ok {
+		return "meta?(" + m.String() + ")"
+	}
+	t := make([]string, len(path))
+	for i, p := range path {
+		t[i] = hx.EncS(p)
+	}
+	return "meta(" + strings.Join(t, ">") + ";" + hx.EncS(val) + ")"
 }
 
 func (r *request) header(name string) (string, bool) {
@@ -162,6 +220,13 @@ func (e *evalCtx) evalPrincipal(p *envoy_rbac_v3.Principal, c *wireCaller, r *re
 			return true
 		}
 		return e.strMatch(id.Authenticated.GetPrincipalName(), c.principal)
+	case *envoy_rbac_v3.Principal_Metadata:
+		path, val, ok := metaParts(id.Metadata)
+		if !ok {
+			e.unknown = append(e.unknown, "principal metadata matcher")
+			return false
+		}
+		return r.has(path, val)
 	case *envoy_rbac_v3.Principal_Header:
 		if strings.EqualFold(id.Header.GetName(), "x-forwarded-client-cert") {
 			if c.xfcc == nil {
@@ -207,6 +272,13 @@ func (e *evalCtx) evalPermission(p *envoy_rbac_v3.Permission, r *request) bool {
 	case *envoy_rbac_v3.Permission_Header:
 		v, ok := r.header(ru.Header.GetName())
 		return e.hdrMatch(ru.Header, v, ok)
+	case *envoy_rbac_v3.Permission_Metadata:
+		path, val, ok := metaParts(ru.Metadata)
+		if !ok {
+			e.unknown = append(e.unknown, "permission metadata matcher")
+			return false
+		}
+		return r.has(path, val)
 	default:
 		e.unknown = append(e.unknown, fmt.Sprintf("permission %T", ru))
 		return false
@@ -298,6 +370,8 @@ func sPm(p *envoy_rbac_v3.Permission) string {
 		return "path(" + sStrM(pm.Path) + ")"
 	case *envoy_rbac_v3.Permission_Header:
 		return sHdrM(ru.Header)
+	case *envoy_rbac_v3.Permission_Metadata:
+		return sMeta(ru.Metadata)
 	case *envoy_rbac_v3.Permission_AndRules:
 		return "and(" + sPms(ru.AndRules.GetRules()) + ")"
 	case *envoy_rbac_v3.Permission_OrRules:
@@ -335,6 +409,8 @@ func sPr(p *envoy_rbac_v3.Principal) string {
 			}
 		}
 		return "hdr?" + sHdrM(h)
+	case *envoy_rbac_v3.Principal_Metadata:
+		return sMeta(id.Metadata)
 	case *envoy_rbac_v3.Principal_AndIds:
 		return "and(" + sPrs(id.AndIds.GetIds()) + ")"
 	case *envoy_rbac_v3.Principal_OrIds:
